@@ -101,7 +101,14 @@ def table_case(draw, min_rows=1, max_rows=120, float_coords=False):
 @st.composite
 def case_strategy(draw):
     mode = draw(st.sampled_from(["centers", "centers", "ids", "num"]))
-    n, degrees, table = draw(table_case(float_coords=mode == "num"))
+    many_centres = mode == "centers" and draw(st.integers(0, 11)) == 11  # hundreds of centres
+    if many_centres:
+        scene = draw(gen.lattice_scene(draw(st.sampled_from([128, 129, 256, 257, 300]))))
+        cat = scene["cats"][0]
+        n, degrees = len(cat["ra"]), False
+        table = {"ra": cat["ra"], "dec": cat["dec"], "w": cat["w"], "z": None, "pid": None, "dtypes": {c: "f8" for c in ("ra", "dec", "w", "z")}}
+    else:
+        n, degrees, table = draw(table_case(float_coords=mode == "num"))
     source = draw(st.sampled_from(["dataframe", "dataframe", "fits", "hdf5", "parquet"]))
     case = {"n": n, "degrees": degrees, "table": table, "source": source, "mode": mode}
     cols = sources.table_columns(table)
@@ -112,6 +119,8 @@ def case_strategy(draw):
         K = draw(st.integers(1, min(draw(st.sampled_from([6, 6, 6, 13])), len(uniq))))  # sometimes two-digit patch ids
         idx = draw(st.lists(st.integers(0, len(uniq) - 1), min_size=K, max_size=K, unique=True))
         case["centers"] = uniq[idx].tolist()
+        if many_centres:
+            case["centers"] = scene["centers"]
         if draw(st.integers(0, 5)) == 0:
             # redundant patch-index column next to explicit centres: documented to be ignored
             table["pid"] = draw(st.lists(st.integers(0, K - 1), min_size=n, max_size=n))
@@ -123,6 +132,12 @@ def case_strategy(draw):
         pid = draw(st.permutations(list(range(K)) + rest))
         table["pid"] = list(pid)
         table["dtypes"]["pid"] = draw(st.sampled_from(["i8", "i4", "i2", "u2", "u1", "u4"]))
+        if draw(st.integers(0, 4)) == 0:
+            # patch indices need not be contiguous: any values in 0..32767 that the column type holds
+            top = {"u1": 255, "i2": 32767}.get(table["dtypes"]["pid"], 32767)
+            labels = draw(st.lists(st.one_of(st.integers(0, top), st.sampled_from([v for v in (127, 128, 255, 256, 32767) if v <= top])), min_size=K, max_size=K, unique=True))
+            table["pid"] = [labels[i] for i in table["pid"]]
+            case["sparse_ids"] = True
     else:
         if n < 12:
             case["mode"] = "centers"
@@ -207,7 +222,7 @@ def run_case(case):
     table = case["table"]
     n = case["n"]
     names, exp = sources.expected_records(table, case["degrees"])
-    ck = Checker(classes=[f"source:{case['source']}", f"mode:{case['mode']}", "degrees" if case["degrees"] else "radian"] + (["centres+stale-patch-column"] if case.get("stale_pid") else []))
+    ck = Checker(classes=[f"source:{case['source']}", f"mode:{case['mode']}", "degrees" if case["degrees"] else "radian"] + (["centres+stale-patch-column"] if case.get("stale_pid") else []) + (["non-contiguous-patch-ids"] if case.get("sparse_ids") else []))
     for c in ("ra", "dec"):
         ck.cls(f"dtype:{table['dtypes'][c]}")
     if case["mode"] == "centers":
